@@ -1,7 +1,8 @@
 (* C04 — completeness of the algorithm on the shadow-free class, and its failure outside of it.
 
      wf p -> shadow_free p = true -> check_with Q p = []          (any setting of the quirks)
-     exists p, wf p /\ check p <> []                               (pinned frontend, late shadowing)   *)
+     wf p -> check p = []                                          (the frontend as it is now)
+     exists p, wf p /\ check_pinned p <> []                        (pinned frontend, late shadowing)   *)
 From Coq Require Import List Arith Bool Lia.
 Import ListNotations.
 From DDP Require Import Lang.MiniSyntax Lang.MiniTyping Lang.MiniTypingProofs Lang.MiniCheck Lang.MiniGuard Lang.MiniCheckProofs
@@ -75,7 +76,7 @@ Lemma field_of_struct : forall s f x, field_of M s f = Some x -> is_struct_name 
 Proof. intros s f x H; unfold field_of in H; unfold is_struct_name; destruct (struct_of M s); [auto | discriminate H]. Qed.
 
 (* ---- expressions ---------------------------------------------------------------------------- *)
-Lemma tc_complete : forall F G G', ext G G' -> sok M G' ->
+Lemma tc_complete_gen : forall F G G', ext G G' -> (q_field_unimported Q = true -> sok M G') ->
   (forall e t, type_of M F G e = Some t ->
      tc_expr Q M F G' e = (Some t, []) /\ rs_expr G' e = [] /\ pt_expr F G' e = []) /\
   (forall a ps, args_chk M F G a ps = true ->
@@ -101,9 +102,8 @@ Proof.
   - intros f e IH t H; cbn in H. destruct (type_of M F G e) as [[| | | | | | |s]|] eqn:E; try discriminate H.
     destruct (field_of M s f) as [[[|] tf]|] eqn:Ef; inversion H; subst.
     destruct (IH _ eq_refl) as [H1 [H2 H3]]. cbn. rewrite H1, Ef, H2, H3.
-    unfold tc_field_priv. destruct (Hsok s (field_of_struct _ _ _ Ef)) as [Hl | Hl]; rewrite Hl.
-    + destruct (q_field_unimported Q); repeat split.
-    + repeat split.
+    unfold tc_field_priv. destruct (q_field_unimported Q) eqn:Eq; [| repeat split].
+    destruct (Hsok eq_refl s (field_of_struct _ _ _ Ef)) as [Hl | Hl]; rewrite Hl; repeat split.
   - intros f a IH t H. cbn [type_of] in H. rewrite tc_call_eq. cbn [rs_expr pt_expr].
     destruct (assoc f F) as [[ps [r|]]|] eqn:Ef; try discriminate H.
     destruct (args_chk M F G a ps) eqn:Ea; inversion H; subst.
@@ -120,17 +120,24 @@ Proof.
       rewrite tc_args_cons, H1. cbn [rs_args pt_args]. cbn. rewrite ty_eqb_refl. cbn. rewrite H4, H2, H5, H3, H6. repeat split.
 Qed.
 
+Lemma tc_complete : forall F G G', ext G G' -> sok M G' ->
+  (forall e t, type_of M F G e = Some t ->
+     tc_expr Q M F G' e = (Some t, []) /\ rs_expr G' e = [] /\ pt_expr F G' e = []) /\
+  (forall a ps, args_chk M F G a ps = true ->
+     tc_args Q M F G' a ps = [] /\ rs_args G' a = [] /\ pt_args F G' a ps = []).
+Proof. intros F G G' Hext Hsok; apply tc_complete_gen; auto. Qed.
+
 (* ---- expression slots of statements ----------------------------------------------------------- *)
 Section Slots.
 Variables (F : fenv) (G G' : env).
 Hypothesis Hext : ext G G'.
-Hypothesis Hsok : sok M G'.
+Hypothesis Hsok : q_field_unimported Q = true -> sok M G'.
 
 Lemma tc_init_complete : forall e t, assign_chk M F G e t = true ->
   tc_init Q M F G' e t = [] /\ rs_expr G' e = [] /\ pt_expr F G' e = [].
 Proof.
   intros e t H. unfold assign_chk in H. destruct (type_of M F G e) as [t0|] eqn:E; [| discriminate H].
-  destruct (proj1 (tc_complete F G G' Hext Hsok) _ _ E) as [H1 [H2 H3]]. unfold tc_init. rewrite H1.
+  destruct (proj1 (tc_complete_gen F G G' Hext Hsok) _ _ E) as [H1 [H2 H3]]. unfold tc_init. rewrite H1.
   repeat split; auto. unfold vassign_ok; cbn. unfold assignableb in H. apply orb_true_iff in H as [H | H].
   - apply ty_eqb_eq in H; subst. rewrite ty_eqb_refl. reflexivity.
   - apply andb_true_iff in H as [Ha Hb]. rewrite Ha, Hb, orb_true_r. reflexivity.
@@ -141,14 +148,14 @@ Lemma tc_cond_complete : forall c, has_typeb M F G c TBool = true ->
 Proof.
   intros c H. unfold has_typeb in H. destruct (type_of M F G c) as [t0|] eqn:E; [| discriminate H].
   apply ty_eqb_eq in H; subst.
-  destruct (proj1 (tc_complete F G G' Hext Hsok) _ _ E) as [H1 [H2 H3]]. unfold tc_cond. rewrite H1. repeat split; auto.
+  destruct (proj1 (tc_complete_gen F G G' Hext Hsok) _ _ E) as [H1 [H2 H3]]. unfold tc_cond. rewrite H1. repeat split; auto.
 Qed.
 
 Lemma tc_numeric_complete : forall e, numericb_expr M F G e = true ->
   tc_numeric Q M F G' e = [] /\ rs_expr G' e = [] /\ pt_expr F G' e = [].
 Proof.
   intros e H. unfold numericb_expr in H. destruct (type_of M F G e) as [t0|] eqn:E; [| discriminate H].
-  destruct (proj1 (tc_complete F G G' Hext Hsok) _ _ E) as [H1 [H2 H3]]. unfold tc_numeric. rewrite H1. cbn. rewrite H.
+  destruct (proj1 (tc_complete_gen F G G' Hext Hsok) _ _ E) as [H1 [H2 H3]]. unfold tc_numeric. rewrite H1. cbn. rewrite H.
   repeat split; auto.
 Qed.
 
@@ -299,7 +306,7 @@ Proof.
     intros a t x e G d r G1 H1 H2 Hs G' deep Hext Hsok'. cbn in H1.
     destruct (ty_ok G t && genderb M t a && assign_chk M F G e t && negb (in_top G x)) eqn:E; [| discriminate H1].
     apply andb_true_iff in E as [E _]. apply andb_true_iff in E as [_ E3].
-    rewrite tcs_var_eq. apply (tc_init_complete F G G' Hext Hsok' _ _ E3).
+    rewrite tcs_var_eq. apply (tc_init_complete F G G' Hext (fun _ => Hsok') _ _ E3).
   - intros; reflexivity.
   - (* SAssign *)
     intros x e G d r G1 H1 H2 Hs G' deep Hext Hsok'. cbn in H1.
@@ -317,7 +324,7 @@ Proof.
     destruct (block_chk M F (push G) d r el) as [Gel|] eqn:Eel; [| discriminate H1].
     destruct (sf_block M (push G) th) as [Xth|] eqn:Sth; [| discriminate H2].
     destruct (sf_block M (push G) el) as [Xel|] eqn:Sel; [| discriminate H2].
-    rewrite tcs_if_eq. destruct (tc_cond_complete F G G' Hext Hsok' _ Ec) as [-> _]. cbn [app].
+    rewrite tcs_if_eq. destruct (tc_cond_complete F G G' Hext (fun _ => Hsok') _ Ec) as [-> _]. cbn [app].
     destruct deep; auto.
     pose proof (proj2 (sf_same F) _ _ _ _ _ _ Eth Sth) as <-. pose proof (proj2 (sf_same F) _ _ _ _ _ _ Eel Sel) as <-.
     rewrite (nested_ok F th (push G) d r Gth G' true) with (sc := []) (G := G); auto using sok_push.
@@ -331,7 +338,7 @@ Proof.
     destruct (has_typeb M F G c TBool) eqn:Ec; [| discriminate H1].
     destruct (block_chk M F (push G) (S d) r b) as [Gb|] eqn:Eb; [| discriminate H1].
     destruct (sf_block M (push G) b) as [Xb|] eqn:Sb; [| discriminate H2].
-    rewrite tcs_while_eq. destruct (tc_cond_complete F G G' Hext Hsok' _ Ec) as [-> _]. cbn [app].
+    rewrite tcs_while_eq. destruct (tc_cond_complete F G G' Hext (fun _ => Hsok') _ Ec) as [-> _]. cbn [app].
     destruct deep; auto.
     pose proof (proj2 (sf_same F) _ _ _ _ _ _ Eb Sb) as <-.
     apply (nested_ok F b (push G) (S d) r Gb G' true) with (sc := []) (G := G); auto using sok_push.
@@ -345,10 +352,10 @@ Proof.
     destruct (sf_block M (bind (push G) x (BVar t)) b) as [Xb|] eqn:Sb; [| discriminate H2].
     apply andb_true_iff in E as [E E6]. apply andb_true_iff in E as [E E5]. apply andb_true_iff in E as [E E4].
     apply andb_true_iff in E as [E E3].
-    rewrite tcs_for_eq. destruct (tc_init_complete F G G' Hext Hsok' _ _ E4) as [-> _].
-    destruct (tc_numeric_complete F G G' Hext Hsok' _ E5) as [-> _]. rewrite E3. cbn [unless app].
+    rewrite tcs_for_eq. destruct (tc_init_complete F G G' Hext (fun _ => Hsok') _ _ E4) as [-> _].
+    destruct (tc_numeric_complete F G G' Hext (fun _ => Hsok') _ E5) as [-> _]. rewrite E3. cbn [unless app].
     assert (Hstep : match step with Some e => tc_numeric Q M F G' e | None => [] end = []).
-    { destruct step as [e|]; auto. apply (tc_numeric_complete F G G' Hext Hsok' _ E6). }
+    { destruct step as [e|]; auto. apply (tc_numeric_complete F G G' Hext (fun _ => Hsok') _ E6). }
     rewrite Hstep. cbn [app]. destruct deep; auto.
     pose proof (proj2 (sf_same F) _ _ _ _ _ _ Eb Sb) as <-.
     apply fresh_ok_spec in Ef as [Ef1 Ef2].
@@ -412,7 +419,7 @@ Proof.
     apply andb_true_iff in E as [E E4]. apply andb_true_iff in E as [E E3]. apply andb_true_iff in E as [E1 E2].
     apply negb_true_iff in E4. destruct (fresh_ok M G x) eqn:Ef; [| discriminate H2]. apply fresh_ok_spec in Ef as [Ef1 Ef2].
     rewrite ck_var_eq. unfold insert. rewrite E4. unfold pt_type. rewrite E1, (art_diag_ok _ _ E2).
-    destruct (tc_init_complete F G G (ext_refl G) Hs _ _ E3) as [_ [-> ->]]. cbn [unless app].
+    destruct (tc_init_complete F G G (ext_refl G) (fun _ => Hs) _ _ E3) as [_ [-> ->]]. cbn [unless app].
     rewrite Hre; auto. destruct (q_tc_by_name Q); [apply ext_bind; auto | apply ext_refl].
     destruct (q_tc_by_name Q); [apply sok_bind; auto | auto].
   - (* SConst *)
@@ -425,7 +432,7 @@ Proof.
     pose proof (proj1 (rerun_ok F) _ _ _ _ _ H1 H2 Hs) as Hre. cbn in H1.
     destruct (lookup G x) as [[t| | |]|] eqn:El; try discriminate H1.
     destruct (assign_chk M F G e t) eqn:Ea; [| discriminate H1]. injection H1 as <-.
-    rewrite ck_assign_eq, El. destruct (tc_init_complete F G G (ext_refl G) Hs _ _ Ea) as [_ [-> ->]].
+    rewrite ck_assign_eq, El. destruct (tc_init_complete F G G (ext_refl G) (fun _ => Hs) _ _ Ea) as [_ [-> ->]].
     rewrite Hre; auto using ext_refl.
   - (* SIf *)
     intros c th IHth el IHel G d r G1 H1 H2 Hs.
@@ -437,7 +444,7 @@ Proof.
     destruct (sf_block M (push G) el) as [Xel|] eqn:Sel; [| discriminate H2].
     pose proof (proj2 (sf_same F) _ _ _ _ _ _ Eth Sth) as <-. pose proof (proj2 (sf_same F) _ _ _ _ _ _ Eel Sel) as <-.
     rewrite ck_if_eq, (IHth _ _ _ _ Eth Sth (sok_push _ _ Hs)), (IHel _ _ _ _ Eel Sel (sok_push _ _ Hs)).
-    destruct (tc_cond_complete F G G (ext_refl G) Hs _ Ec) as [_ [-> ->]].
+    destruct (tc_cond_complete F G G (ext_refl G) (fun _ => Hs) _ Ec) as [_ [-> ->]].
     rewrite Hre; auto using ext_refl.
   - (* SWhile *)
     intros c b IHb G d r G1 H1 H2 Hs.
@@ -447,7 +454,7 @@ Proof.
     destruct (sf_block M (push G) b) as [Xb|] eqn:Sb; [| discriminate H2].
     pose proof (proj2 (sf_same F) _ _ _ _ _ _ Eb Sb) as <-.
     rewrite ck_while_eq, (IHb _ _ _ _ Eb Sb (sok_push _ _ Hs)).
-    destruct (tc_cond_complete F G G (ext_refl G) Hs _ Ec) as [_ [-> ->]].
+    destruct (tc_cond_complete F G G (ext_refl G) (fun _ => Hs) _ Ec) as [_ [-> ->]].
     rewrite Hre; auto using ext_refl.
   - (* SFor *)
     intros a t x from to step b IHb G d r G1 H1 H2 Hs.
@@ -465,16 +472,16 @@ Proof.
     destruct (sf_block_step _ _ _ Sb) as [Hxb Hkb].
     assert (HxG : ext G Gb) by (eapply ext_trans; eauto).
     rewrite ck_for_eq, (IHb _ _ _ _ Eb Sb Hs0). unfold pt_type. rewrite E1, (art_diag_ok _ _ E2).
-    destruct (tc_init_complete F G G (ext_refl G) Hs _ _ E4) as [_ [_ ->]].
-    destruct (tc_numeric_complete F G G (ext_refl G) Hs _ E5) as [_ [_ ->]].
+    destruct (tc_init_complete F G G (ext_refl G) (fun _ => Hs) _ _ E4) as [_ [_ ->]].
+    destruct (tc_numeric_complete F G G (ext_refl G) (fun _ => Hs) _ E5) as [_ [_ ->]].
     assert (HxGr : ext G (if q_tc_by_name Q then Gb else G)) by (destruct (q_tc_by_name Q); auto using ext_refl).
     assert (HkGr : sok M (if q_tc_by_name Q then Gb else G)) by (destruct (q_tc_by_name Q); auto).
-    destruct (tc_init_complete F G _ HxGr HkGr _ _ E4) as [_ [-> _]].
-    destruct (tc_numeric_complete F G _ HxGr HkGr _ E5) as [_ [-> _]].
+    destruct (tc_init_complete F G _ HxGr (fun _ => HkGr) _ _ E4) as [_ [-> _]].
+    destruct (tc_numeric_complete F G _ HxGr (fun _ => HkGr) _ E5) as [_ [-> _]].
     assert (Hst : pt_opt F G step = [] /\ rs_opt (if q_tc_by_name Q then Gb else G) step = []).
     { destruct step as [e|]; [| split; reflexivity]. cbn.
-      destruct (tc_numeric_complete F G G (ext_refl G) Hs _ E6) as [_ [_ ->]].
-      destruct (tc_numeric_complete F G _ HxGr HkGr _ E6) as [_ [-> _]]. split; reflexivity. }
+      destruct (tc_numeric_complete F G G (ext_refl G) (fun _ => Hs) _ E6) as [_ [_ ->]].
+      destruct (tc_numeric_complete F G _ HxGr (fun _ => HkGr) _ E6) as [_ [-> _]]. split; reflexivity. }
     destruct Hst as [-> ->]. cbn [unless app].
     rewrite Hre; auto using ext_refl.
   - intros G d r G1 H1 _ _. cbn in *. destruct d; inversion H1; reflexivity.
@@ -658,7 +665,162 @@ Proof.
   destruct d; cbn in *; try reflexivity; rewrite Hst in Hdin; discriminate Hdin.
 Qed.
 
+(* ---- full completeness when the typechecker uses the resolver's bindings and fields are protected by type ---- *)
+Section Full.
+Variable Q : quirks.
+Variable M : imod.
+Hypothesis Hq1 : q_tc_by_name Q = false.
+Hypothesis Hq2 : q_field_unimported Q = false.
+
+Lemma nosok : forall G, q_field_unimported Q = true -> sok M G.
+Proof. intros G E; rewrite Hq2 in E; discriminate E. Qed.
+
+Lemma tcs_shallow : forall F s G d r G1, stmt_chk M F G d r s = Some G1 -> tcs_stmt Q M false F G r s = [].
+Proof.
+  intros F s G d r G1 H1. destruct s.
+  - cbn in H1. destruct (ty_ok G t && genderb M t a && assign_chk M F G e t && negb (in_top G x)) eqn:E; [| discriminate H1].
+    apply andb_true_iff in E as [E _]. apply andb_true_iff in E as [_ E3].
+    rewrite tcs_var_eq. apply (tc_init_complete Q M F G G (ext_refl G) (nosok G) _ _ E3).
+  - reflexivity.
+  - cbn in H1. destruct (lookup G x) as [[t| | |]|] eqn:El; try discriminate H1.
+    destruct (assign_chk M F G e t) eqn:Ea; [| discriminate H1].
+    rewrite tcs_assign_eq. unfold assign_chk in Ea. destruct (type_of M F G e) as [t0|] eqn:E; [| discriminate Ea].
+    destruct (proj1 (tc_complete_gen Q M F G G (ext_refl G) (nosok G)) _ _ E) as [Ht _]. rewrite Ht. cbn [tc_expr]. rewrite El.
+    cbn. unfold vassign_ok; cbn. unfold assignableb in Ea. apply orb_true_iff in Ea as [Ea | Ea].
+    + apply ty_eqb_eq in Ea; subst. rewrite ty_eqb_refl. reflexivity.
+    + apply andb_true_iff in Ea as [Ha Hb]. rewrite Ha, Hb, orb_true_r. reflexivity.
+  - cbn in H1. destruct (has_typeb M F G c TBool) eqn:Ec; [| discriminate H1].
+    rewrite tcs_if_eq. destruct (tc_cond_complete Q M F G G (ext_refl G) (nosok G) _ Ec) as [-> _]. reflexivity.
+  - cbn in H1. destruct (has_typeb M F G c TBool) eqn:Ec; [| discriminate H1].
+    rewrite tcs_while_eq. destruct (tc_cond_complete Q M F G G (ext_refl G) (nosok G) _ Ec) as [-> _]. reflexivity.
+  - cbn [stmt_chk] in H1.
+    match type of H1 with (if ?c then _ else _) = _ => destruct c eqn:E; [| discriminate H1] end.
+    apply andb_true_iff in E as [E E6]. apply andb_true_iff in E as [E E5]. apply andb_true_iff in E as [E E4].
+    apply andb_true_iff in E as [E E3].
+    rewrite tcs_for_eq. destruct (tc_init_complete Q M F G G (ext_refl G) (nosok G) _ _ E4) as [-> _].
+    destruct (tc_numeric_complete Q M F G G (ext_refl G) (nosok G) _ E5) as [-> _]. rewrite E3. cbn [unless app].
+    destruct step as [e|]; [| reflexivity].
+    destruct (tc_numeric_complete Q M F G G (ext_refl G) (nosok G) _ E6) as [-> _]. reflexivity.
+  - reflexivity.
+  - reflexivity.
+  - rewrite tcs_return_eq. unfold tc_return. cbn in H1.
+    destruct e as [e|]; destruct r as [| [t|]]; try discriminate H1.
+    + destruct (has_typeb M F G e t) eqn:E; [| discriminate H1]. unfold has_typeb in E.
+      destruct (type_of M F G e) as [t0|] eqn:Et; [| discriminate E]. apply ty_eqb_eq in E; subst t0.
+      destruct (proj1 (tc_complete_gen Q M F G G (ext_refl G) (nosok G)) _ _ Et) as [Ht _]. rewrite Ht. cbn. rewrite ty_eqb_refl. reflexivity.
+    + reflexivity.
+  - rewrite tcs_blockstmt_eq. reflexivity.
+  - rewrite tcs_call_eq, tc_call_eq. cbn in H1.
+    destruct (assoc f F) as [[ps ro]|]; [| discriminate H1].
+    destruct (args_chk M F G a ps) eqn:Ea; [| discriminate H1].
+    cbn. apply (proj2 (tc_complete_gen Q M F G G (ext_refl G) (nosok G)) _ _ Ea).
+Qed.
+
+Lemma ck_complete_full : forall F,
+  (forall s G d r G1, stmt_chk M F G d r s = Some G1 -> ck_stmt Q M F G d r s = ([], G1)) /\
+  (forall b G d r G1, block_chk M F G d r b = Some G1 -> ck_block Q M F G d r b = ([], G1)).
+Proof.
+  intros F; apply stmt_block_ind.
+  - intros a t x e G d r G1 H1. pose proof (tcs_shallow F _ _ _ _ _ H1) as Hre. cbn in H1.
+    destruct (ty_ok G t && genderb M t a && assign_chk M F G e t && negb (in_top G x)) eqn:E; [| discriminate H1].
+    injection H1 as <-.
+    apply andb_true_iff in E as [E E4]. apply andb_true_iff in E as [E E3]. apply andb_true_iff in E as [E1 E2].
+    apply negb_true_iff in E4.
+    rewrite ck_var_eq. unfold insert. rewrite E4. unfold pt_type. rewrite E1, (art_diag_ok M _ _ E2).
+    destruct (tc_init_complete Q M F G G (ext_refl G) (nosok G) _ _ E3) as [_ [-> ->]]. cbn [unless app].
+    rewrite Hq1, Hre. reflexivity.
+  - intros a x l G d r G1 H1. cbn in H1.
+    destruct (article_eqb a Die && negb (in_top G x)) eqn:E; [| discriminate H1]. injection H1 as <-.
+    apply andb_true_iff in E as [E1 E2]. apply negb_true_iff in E2.
+    rewrite ck_const_eq. unfold insert. rewrite E2, E1. reflexivity.
+  - intros x e G d r G1 H1. pose proof (tcs_shallow F _ _ _ _ _ H1) as Hre. cbn in H1.
+    destruct (lookup G x) as [[t| | |]|] eqn:El; try discriminate H1.
+    destruct (assign_chk M F G e t) eqn:Ea; [| discriminate H1]. injection H1 as <-.
+    rewrite ck_assign_eq, El. destruct (tc_init_complete Q M F G G (ext_refl G) (nosok G) _ _ Ea) as [_ [-> ->]].
+    rewrite Hq1, Hre. reflexivity.
+  - intros c th IHth el IHel G d r G1 H1. pose proof (tcs_shallow F _ _ _ _ _ H1) as Hre. cbn in H1.
+    destruct (has_typeb M F G c TBool) eqn:Ec; [| discriminate H1].
+    destruct (block_chk M F (push G) d r th) as [Gth|] eqn:Eth; [| discriminate H1].
+    destruct (block_chk M F (push G) d r el) as [Gel|] eqn:Eel; [| discriminate H1]. injection H1 as <-.
+    rewrite ck_if_eq, (IHth _ _ _ _ Eth), (IHel _ _ _ _ Eel).
+    destruct (tc_cond_complete Q M F G G (ext_refl G) (nosok G) _ Ec) as [_ [-> ->]].
+    rewrite Hq1, Hre. reflexivity.
+  - intros c b IHb G d r G1 H1. pose proof (tcs_shallow F _ _ _ _ _ H1) as Hre. cbn in H1.
+    destruct (has_typeb M F G c TBool) eqn:Ec; [| discriminate H1].
+    destruct (block_chk M F (push G) (S d) r b) as [Gb|] eqn:Eb; [| discriminate H1]. injection H1 as <-.
+    rewrite ck_while_eq, (IHb _ _ _ _ Eb).
+    destruct (tc_cond_complete Q M F G G (ext_refl G) (nosok G) _ Ec) as [_ [-> ->]].
+    rewrite Hq1, Hre. reflexivity.
+  - intros a t x from to step b IHb G d r G1 H1. pose proof (tcs_shallow F _ _ _ _ _ H1) as Hre. cbn [stmt_chk] in H1.
+    match type of H1 with (if ?c then _ else _) = _ => destruct c eqn:E; [| discriminate H1] end.
+    destruct (block_chk M F (bind (push G) x (BVar t)) (S d) r b) as [Gb|] eqn:Eb; [| discriminate H1]. injection H1 as <-.
+    apply andb_true_iff in E as [E E6]. apply andb_true_iff in E as [E E5]. apply andb_true_iff in E as [E E4].
+    apply andb_true_iff in E as [E E3]. apply andb_true_iff in E as [E1 E2].
+    rewrite ck_for_eq, (IHb _ _ _ _ Eb), Hq1. unfold pt_type. rewrite E1, (art_diag_ok M _ _ E2).
+    destruct (tc_init_complete Q M F G G (ext_refl G) (nosok G) _ _ E4) as [_ [-> ->]].
+    destruct (tc_numeric_complete Q M F G G (ext_refl G) (nosok G) _ E5) as [_ [-> ->]].
+    assert (Hst : pt_opt F G step = [] /\ rs_opt G step = []).
+    { destruct step as [e|]; [| split; reflexivity]. cbn.
+      destruct (tc_numeric_complete Q M F G G (ext_refl G) (nosok G) _ E6) as [_ [-> ->]]. split; reflexivity. }
+    destruct Hst as [-> ->]. cbn [unless app]. rewrite Hre. reflexivity.
+  - intros G d r G1 H1. cbn in *. destruct d; inversion H1; reflexivity.
+  - intros G d r G1 H1. cbn in *. destruct d; inversion H1; reflexivity.
+  - intros oe G d r G1 H1. pose proof (tcs_shallow F _ _ _ _ _ H1) as Hre. cbn in H1.
+    rewrite ck_return_eq, Hq1.
+    destruct oe as [e|]; destruct r as [| [t|]]; try discriminate H1.
+    + destruct (has_typeb M F G e t) eqn:E; [| discriminate H1]. injection H1 as <-.
+      unfold has_typeb in E. destruct (type_of M F G e) as [t0|] eqn:Et; [| discriminate E].
+      destruct (proj1 (tc_complete_gen Q M F G G (ext_refl G) (nosok G)) _ _ Et) as [_ [Hr Hp]]. cbn [pt_opt rs_opt]. rewrite Hr, Hp, Hre.
+      reflexivity.
+    + injection H1 as <-. cbn [pt_opt rs_opt app]. rewrite Hre. reflexivity.
+  - intros b IHb G d r G1 H1. pose proof (tcs_shallow F _ _ _ _ _ H1) as Hre. cbn in H1.
+    destruct (block_chk M F (push G) d r b) as [Gb|] eqn:Eb; [| discriminate H1]. injection H1 as <-.
+    rewrite ck_blockstmt_eq, (IHb _ _ _ _ Eb), Hq1, Hre. reflexivity.
+  - intros f a G d r G1 H1. pose proof (tcs_shallow F _ _ _ _ _ H1) as Hre. cbn in H1.
+    rewrite ck_call_eq, Hq1. cbn [pt_expr].
+    destruct (assoc f F) as [[ps ro]|]; [| discriminate H1].
+    destruct (args_chk M F G a ps) eqn:Ea; [| discriminate H1]. injection H1 as <-.
+    destruct (proj2 (tc_complete_gen Q M F G G (ext_refl G) (nosok G)) _ _ Ea) as [_ [-> ->]].
+    rewrite Hre. reflexivity.
+  - intros G d r G1 H1. cbn in *. injection H1 as <-; reflexivity.
+  - intros s IHs b IHb G d r G1 H1. cbn in H1.
+    destruct (stmt_chk M F G d r s) as [Ga|] eqn:Ea; [| discriminate H1].
+    rewrite ck_cons_eq, (IHs _ _ _ _ Ea), (IHb _ _ _ _ H1). reflexivity.
+Qed.
+
+Lemma ck_fun_complete_full : forall F G f, fun_chk M F G f = true ->
+  ck_fun Q M F G f = ([], bind G (f_name f) BFun, (f_name f, sig_of f) :: F).
+Proof.
+  intros F G f H. unfold fun_chk in H. destruct (lookup G (f_name f)) eqn:El; [discriminate H |].
+  apply andb_true_iff in H as [H Hfin]. apply andb_true_iff in H as [H Hblk].
+  apply andb_true_iff in H as [H Hret]. apply andb_true_iff in H as [Hnd Hps].
+  destruct (block_chk M ((f_name f, sig_of f) :: F) (param_scope f :: bind G (f_name f) BFun) 0
+                      (RFun (option_map snd (f_ret f))) (f_body f)) as [G1|] eqn:Eb; [| discriminate Hblk].
+  pose proof (proj2 (ck_complete_full _) _ _ _ _ _ Eb) as Hck.
+  unfold ck_fun. rewrite El.
+  assert (Hparams : ck_params G (f_params f) = []).
+  { unfold ck_params. rewrite (nodupb_dup_names _ Hnd). cbn [app]. apply ck_params_flat; auto. }
+  rewrite Hparams.
+  assert (Hrt : match f_ret f with Some (_, t) => pt_type G t | None => [] end = [] /\
+                match f_ret f with Some (a, t) => art_diag M t a | None => [] end = []).
+  { destruct (f_ret f) as [[a t]|]; [| split; reflexivity]. cbn in Hret. apply andb_true_iff in Hret as [Hr1 Hr2].
+    unfold pt_type. rewrite Hr1, (art_diag_ok M _ _ Hr2). split; reflexivity. }
+  destruct Hrt as [-> ->]. cbn [app]. rewrite Hck.
+  destruct (f_ret f); [rewrite Hfin |]; reflexivity.
+Qed.
+
+Lemma ck_tops_complete_full : forall l F G, tops_chk M F G l = true -> ck_tops Q M F G l = [].
+Proof.
+  induction l as [| [f|s] l IH]; intros F G H; cbn in *; auto.
+  - apply andb_true_iff in H as [Hf Hl]. rewrite (ck_fun_complete_full _ _ _ Hf). cbn [app]. apply IH; auto.
+  - destruct (stmt_chk M F G 0 RGlobal s) as [G1|] eqn:Es; [| discriminate H].
+    rewrite (proj1 (ck_complete_full _) _ _ _ _ _ Es). cbn [app]. apply IH; auto.
+Qed.
+
+End Full.
+
 (* ---- the theorems ---------------------------------------------------------------------------------- *)
+(* every quirk setting: complete on shadow-free programs *)
 Theorem check_with_complete : forall Q p, wf p -> shadow_free p = true -> check_with Q p = [].
 Proof.
   intros Q p Hwf Hsf. apply wfb_iff in Hwf. unfold wfb in Hwf. unfold shadow_free in Hsf. unfold check_with.
@@ -668,25 +830,39 @@ Proof.
   apply ck_tops_complete; auto. apply sok_import; auto. eapply import_decls_in; eauto.
 Qed.
 
-(* the pinned frontend accepts every well-formed program without shadowing *)
-Theorem check_complete_core : forall p, wf p -> shadow_free p = true -> check p = [].
+(* settings in which the typechecker uses the resolver's bindings and fields are protected by type: complete *)
+Theorem check_with_complete_full : forall Q p, q_tc_by_name Q = false -> q_field_unimported Q = false ->
+  wf p -> check_with Q p = [].
+Proof.
+  intros Q p H1 H2 Hwf. apply wfb_iff in Hwf. unfold wfb in Hwf. unfold check_with.
+  destruct (import_decls (p_mod p) (p_imp p)) as [ds|] eqn:Ei; [| discriminate Hwf].
+  rewrite (ck_import_complete _ _ _ Ei). cbn [app]. apply ck_tops_complete_full; auto.
+Qed.
+
+(* the frontend as it is now accepts every well-formed core program ... *)
+Theorem check_complete : forall p, wf p -> check p = [].
+Proof. intros p; apply check_with_complete_full; reflexivity. Qed.
+
+(* ... hence exactly the well-formed ones *)
+Theorem check_iff_wf : forall p, check p = [] <-> wf p.
+Proof. intros p; split; [apply check_sound | apply check_complete]. Qed.
+
+(* the pinned frontend: complete only without shadowing *)
+Theorem check_pinned_complete_core : forall p, wf p -> shadow_free p = true -> check_pinned p = [].
 Proof. intros p; apply (check_with_complete pinned). Qed.
 
-Theorem check_patched_complete_core : forall p, wf p -> shadow_free p = true -> check_patched p = [].
-Proof. intros p; apply (check_with_complete patched). Qed.
-
-(* without the restriction the pinned frontend rejects well-formed programs:
+(* regression fact: the pinned frontend rejected this well-formed program
      Die Zahl x1 ist 1.
      Wenn wahr, dann:
          Die Zahl x2 ist x1.        (x1 is the outer Zahl)
          Der Text x1 ist "..".      (declared afterwards; legal shadowing)
-   the re-visit of the block looks x1 up in the block's final table and finds the Text *)
+   (its re-visit of the block looked x1 up in the block's final table and found the Text) *)
 Definition w_late_shadow : prog :=
   {| p_mod := []; p_imp := ImpNone;
      p_tops := [TStmt (SVar Die TZahl 1 (ELit LZahl));
                 TStmt (SIf (ELit LBool) (BCons (SVar Die TZahl 2 (EVar 1)) (BCons (SVar Der TText 1 (ELit LText)) BNil)) BNil)] |}.
 
-Theorem check_complete_refuted : exists p, wf p /\ check p <> [] /\ check_patched p = [].
+Theorem check_pinned_complete_refuted : exists p, wf p /\ check_pinned p <> [] /\ check p = [].
 Proof.
   exists w_late_shadow. split; [apply wfb_iff; vm_compute; reflexivity |].
   split; [vm_compute; discriminate | vm_compute; reflexivity].
@@ -704,5 +880,5 @@ Definition ex_ok : prog :=
                 TStmt (SFor Die TZahl 103 (ELit LZahl) (ECall 30 (ACons (EVar 100) ANil)) None
                             (BCons (SCall 101 (ACons (EVar 100) ANil)) (BCons SBreak BNil)))] |}.
 
-Lemma ex_ok_facts : wfb ex_ok = true /\ shadow_free ex_ok = true /\ quirk_free ex_ok = true /\ check ex_ok = [].
+Lemma ex_ok_facts : wfb ex_ok = true /\ shadow_free ex_ok = true /\ quirk_free ex_ok = true /\ check ex_ok = [] /\ check_pinned ex_ok = [].
 Proof. repeat split; vm_compute; reflexivity. Qed.
